@@ -265,6 +265,23 @@ def D23():
     return holds, f"class Color(str, Enum): convert(Color.RED, Color) -> {a!r}; into_data(Color.RED, Union[int, Color]) -> {b!r}"
 
 
+def D26():
+    import pane
+    T = t.TypeVar('T')
+    class Other(pane.PaneBase, t.Generic[T]):
+        x: T
+    class Base(pane.PaneBase, t.Generic[T]):
+        child: Other[T]
+        many: t.List[Other[T]] = []
+    with warnings.catch_warnings():
+        warnings.simplefilter('ignore')
+        r1 = _outcome(lambda: Base[int].from_data({'child': {'x': 's'}}))
+        r2 = _outcome(lambda: Base[int].from_data({'child': {'x': 1}, 'many': [{'x': 's'}]}))
+        r3 = _outcome(lambda: Base[int].from_data({'child': {'x': 1}, 'many': [{'x': 2}]}))
+    holds = r1[:2] == ('raise', 'ConvertError') and r2[:2] == ('raise', 'ConvertError') and r3[0] == 'ok'
+    return holds, f"Base[int] with child: Other[T]: from_data(child.x='s') -> {r1[:2]!r}; many[0].x='s' -> {r2[:2]!r}; well-typed -> {r3[0]!r}"
+
+
 def D25():
     import pane
     r1 = _outcome(lambda: pane.into_data(pane.from_data(None, type(None)), type(None)))
